@@ -76,8 +76,13 @@ class FakeClient:
         if FakeClient.exit_error is not None:
             raise FakeClient.exit_error
 
+    publish_gate: "asyncio.Event | None" = None  # when set, publish() suspends until the harness sets the event
+
     async def publish(self, topic: str, payload: Any = None, qos: int = 0, retain: bool = False, **kwargs: Any) -> None:
+        self.publish_calls = getattr(self, "publish_calls", 0) + 1
         await asyncio.sleep(0)
+        if FakeClient.publish_gate is not None:
+            await FakeClient.publish_gate.wait()
         if FakeClient.publish_error is not None:
             raise FakeClient.publish_error
         self.published.append((topic, payload, qos, retain))
@@ -105,6 +110,7 @@ class FakeClient:
         cls.instances = []
         cls.connect_error = cls.publish_error = cls.subscribe_error = cls.exit_error = None
         cls.echo_prefixes = None
+        cls.publish_gate = None
 
 
 @contextmanager
